@@ -97,6 +97,8 @@ pub fn wire_frame(f: &Frame) -> String {
             iroh_docs::net::AbortReason::NotFound => 0,
             iroh_docs::net::AbortReason::AlreadySyncing => 1,
             iroh_docs::net::AbortReason::InternalServerError => 2,
+            #[allow(unreachable_patterns)]
+            _ => 9,
         }),
     }
 }
